@@ -980,6 +980,313 @@ def correspond_filters(ctx):
 
 
 # --------------------------------------------------------------------------
+# concrete syntax: the Coq model of the grammar (Log/FilterSyntax.v: parse / compile / print) vs arpeggio + visitor
+
+def enc_node(n):
+    """real node tree -> the driver's fexp encoding (enum references unresolved: A)"""
+    from hippolyzer.lib.proxy import message_filter as mf
+    if isinstance(n, mf.MessageFilterNode):
+        sel = [str(x) for x in n.selector]
+        out = ["l"] + enc_str(sel[0]) + [len(sel) - 1]
+        for x in sel[1:]:
+            out += enc_str(x)
+        v = n.value
+        if n.operator is None:
+            return out + ["-"]
+        out += ["+", OPS.index(n.operator)]
+        if isinstance(v, mf.LiteralValue):
+            return out + ["L"] + enc_pv(v.value)
+        if isinstance(v, mf.MetaFieldSpecifier):
+            out += ["M", len(v)]
+            for x in v:
+                out += enc_str(str(x))
+            return out
+        if isinstance(v, mf.EnumFieldSpecifier):
+            return out + ["E"] + enc_str(v.enum_name) + enc_str(v.field_name) + ["A"]
+        raise Unencodable("value " + type(v).__name__)
+    if isinstance(n, mf.UnaryNotFilterNode):
+        return ["n"] + enc_node(n.node)
+    if isinstance(n, mf.AndFilterNode):
+        return ["a"] + enc_node(n.left_node) + enc_node(n.right_node)
+    if isinstance(n, mf.OrFilterNode):
+        return ["o"] + enc_node(n.left_node) + enc_node(n.right_node)
+    raise Unencodable("node " + type(n).__name__)
+
+
+def enc_ast_unresolved(f):
+    """AST -> the driver's fexp encoding with enum references unresolved (what the model's parser answers)"""
+    if f[0] == "leaf" and f[3] is not None and f[3][0] == "enum":
+        out = ["l"] + enc_str(f[1][0]) + [len(f[1]) - 1]
+        for x in f[1][1:]:
+            out += enc_str(x)
+        return out + ["+", OPS.index(f[2]), "E"] + enc_str(f[3][1]) + enc_str(f[3][2]) + ["A"]
+    if f[0] == "leaf":
+        return enc_fexp(f)
+    out = [{"not": "n", "and": "a", "or": "o"}[f[0]]]
+    for g in f[1:]:
+        out += enc_ast_unresolved(g)
+    return out
+
+
+_GRAMMAR = None
+
+
+def _observe_real(fn, text):
+    """-> 'OK <fexp encoding>' | 'REJECT' | None when the result cannot be expressed in the model (inf) """
+    import warnings
+    try:
+        with warnings.catch_warnings():
+            warnings.simplefilter("ignore")
+            node = fn(text)
+    except RecursionError:
+        return None
+    except Exception:
+        return "REJECT"
+    try:
+        return "OK " + line(enc_node(node))
+    except Unencodable:
+        return None
+
+
+def real_compile(text):
+    from hippolyzer.lib.proxy.message_filter import compile_filter
+    return _observe_real(compile_filter, text)
+
+
+def real_parse(text):
+    """the grammar + visitor without the strip / empty / lone-bang wrapper of compile_filter"""
+    from arpeggio import ParserPython, visit_parse_tree
+    from hippolyzer.lib.proxy import message_filter as mf
+
+    def run(t):
+        return visit_parse_tree(ParserPython(mf.message_filter).parse(t), mf.MessageFilterVisitor())
+    return _observe_real(run, text)
+
+
+SQ3, DQ3 = "'" * 3, '"' * 3
+
+
+def in_fragment(text):
+    """texts on which the Coq parser claims to agree with the real one (see the header of Log/FilterSyntax.v)"""
+    if len(text) > 1500:
+        return False
+    for ch in text:
+        o = ord(ch)
+        if o > 255 or (o < 32 and o not in (9, 10, 13)):
+            return False
+    if SQ3 in text or DQ3 in text or "\\N" in text:
+        return False
+    qs = [i for i in (text.find("'"), text.find('"')) if i >= 0]
+    if qs and "\r" in text[min(qs):]:
+        return False
+    return True
+
+
+def text_line(cmd, text):
+    return line([cmd, len(text)] + [ord(c) for c in text])
+
+
+HAND_TEXTS = [
+    "", " ", "!", " ! ", "*", "!*", "\t*\n", "Foo", "Foo.Bar", "Foo . Bar . Baz", "Foo.Bar.Baz.Quux", "a-b.c_d*", "-a", "a.1", "a.", ".a", "a..b",
+    "Foo &&bar", "Foo&&bar", "Foo & & bar", "Foo &bar", "Foo & bar.x", "Foo &bar.x", "Foo && bar.x", "Foo & 1", "Foo & &1", "Foo&1&&Bar", "Foo&&&1",
+    "Foo . Bar == 1", "Foo.Bar==1", "Foo.Bar = 1", "Foo.Bar === 1", "Foo >= 1", "Foo > = 1", "Foo >== 1", "Foo => 1", "Foo <= 1", "Foo < 1", "Foo <> 1",
+    "Foo != 1", "Foo ! = 1", "Foo ^= 'a'", "Foo $= 'a'", "Foo ~= 'a'", "Foo ~ 'a'", "Foo == 1 Bar", "Foo == 1 == 2", "Foo ==", "== 1", "Foo == == 1",
+    "Foo == None", "Foo == Nonesuch.X", "Foo == None.X", "Foo == True", "Foo == Trueish", "Foo == False", "Foo == Falsey.Q", "Foo == true", "Foo == Non",
+    "Foo == Metadata.X", "Foo == Meta.X", "Foo == Meta . X . Y", "Foo == Meta", "Foo == Meta.", "Foo == Meta.1", "Foo == Meta.X.", "Foo == MetaX.Y",
+    "Meta.X == Meta.Y", "Meta == 1", "Foo == A.B", "Foo == A . B", "Foo == A.B.C", "Foo == A", "Foo == *.*", "Foo == b.c", "Foo == b", "Foo == bb.c",
+    "Foo == 0", "Foo == 00", "Foo == 01", "Foo == 007", "Foo == 010.5", "Foo == 01.5", "Foo == 1.", "Foo == 1.5.2", "Foo == .5", "Foo == 1e5", "Foo == 1_000",
+    "Foo == 0x1F", "Foo == 0x", "Foo == 0X1F", "Foo == 0xfg", "Foo == 0x00", "Foo == 0xABCDEFabcdef0123456789", "Foo == 1x", "Foo == -1", "Foo == +1",
+    "Foo == 0.1", "Foo == 0.5", "Foo == 0.30000000000000004", "Foo == 9007199254740993.0", "Foo == 9007199254740993", "Foo == 0.000001",
+    "Foo == 123456789012345678901234567890.5", "Foo == 4.9406564584124654", "Foo == 0.0", "Foo == 00.00", "Foo == 2.5", "Foo == 3.5",
+    "Foo == 0.1000000000000000055511151231257827", "Foo == 2.2250738585072011", "Foo == 5.0000000000000001",
+    "Foo == 1.00000000000000011102230246251565404236316680908203125", "Foo == 1.00000000000000011102230246251565404236316680908203126",
+    "Foo == 1.00000000000000011102230246251565404236316680908203124", "Foo == 1.00000000000000033306690738754696212708950042724609375",
+    "Foo == 'a'", "Foo == ''", "Foo == \"\"", "Foo == 'a' 'b'", "Foo == 'a\\'", "Foo == 'a\\\\'", "Foo == 'a\\\\\\''", "Foo == 'a\\'b'", "Foo == \"a\\\"b\"", "Foo == \"a'b\"",
+    "Foo == 'a\"b'", "Foo == '\\x41'", "Foo == '\\x4'", "Foo == '\\x4g'", "Foo == '\\xfF'", "Foo == '\\z'", "Foo == '\\101'", "Foo == '\\1'", "Foo == '\\18'", "Foo == '\\128'",
+    "Foo == '\\400'", "Foo == '\\777'", "Foo == '\\778'", "Foo == b'\\400'", "Foo == b'\\777'", "Foo == b'\\u1234'", "Foo == '\\u1234'", "Foo == '\\u123'", "Foo == '\\U0001F600'",
+    "Foo == '\\U00110000'", "Foo == '\\U0010FFFF'", "Foo == '\\ud800'", "Foo == b'\xe9'", "Foo == '\xe9'", "Foo == b'\\xe9'", "Foo == 'a\tb'", "Foo == 'a\nb'", "Foo == 'a\\\nb'",
+    "Foo == '\\a\\b\\f\\n\\r\\t\\v\\0'", "Foo == b'\\a\\b\\f\\n\\r\\t\\v\\0'", "Foo == b'abc", "Foo == 'abc", "Foo == b", "Foo == b.c", "Foo == B'a'", "Foo == r'a'", "Foo == u'a'",
+    "Foo == bb'a'", "Foo == b 'a'", "Foo == 'a'b", "Foo == 'a\\", "Foo == '\\", "Foo == '", "Foo == '\\''", "Foo == '\\'", "Foo == '\\\\'", "Foo == 'it''s'",
+    "Foo == '\x7f'", "Foo == '\x80\x85\xa0\xad\xff'", "Foo == b'\\Q'", "Foo == '\\Q\\'", "Foo == 'a' && Bar == \"b\"", "Foo == 'a' || Bar", "Foo == '&&'", "Foo == ')' && (Bar)",
+    "Foo == (1,2,3)", "Foo == (1, 2, 3)", "Foo == ( 1 , 2 , 3 )", "Foo == (1,2 ,\n3)", "Foo == (1.5,2,3,4)", "Foo == ( 1.5,2,3,4 )", "Foo == (1,2)", "Foo == (1,2,3,4,5)", "Foo == (1,2,3,)",
+    "Foo == (1)", "Foo == ()", "Foo == (01,2,3)", "Foo == (00,2,3)", "Foo == (1,2,3", "Foo == (1,,3)", "Foo == (1 2 3)", "Foo == (1,2,x)", "Foo == (1.,2,3)", "Foo == (1,2,3)&&!Bar",
+    "Foo == (0.1, 0.2, 0.30000000000000004)", "Foo == (1,2,3).x", "(Foo == (1,2,3))", "Foo == ((1,2,3))",
+    "a && b || c", "a || b && c", "a && b && c", "a || b || c", "(a && b) || c", "a && (b || c) && d", "((a))", "(((a)) && ((b)))", "!(a)", "!!a", "! a", "!(!a)", "!(!(a))", "( a )",
+    "(a", "a)", "()", "(!)", "a &&", "a && && b", "a | b", "a || | b", "a ||| b", "a &&& b", "&& a", "a b", "a (b)", "(a)(b)", "(a) && (b)", "!(a) || !b", "!a.b.c == 1", "!(a.b.c == 1)",
+    "!a && !b || !(c && !d)", "a&&b||c", "a &&b|| c", "a\n&&\tb", "a \r\n || b", "a == 1&&b == 2||c == 3", "(a == 1) && (b == 2 || (c == 3))", "! ( a == 1 )",
+    "Foo ==\xa01", "\xa0Foo\xa0", "\x85Foo", "Foo\x85", " \t\r\n Foo \t\r\n ", "Foo == 1 )", "( Foo == 1", "Foo == (1,2,3))", "Foo.Bar.Baz == (1,2,3) && !Quux || (A.B & C.D)",
+    "ObjectUpdate.ObjectData.ObjectData.Position > (88, 41, 25)", "Meta.ReqHeaders.cookie ~= 'foo'", "Foo.Bar.Baz == SculptType.TORUS", "*.*.* == 1", "*a*.b-c.d_e == None",
+    "Foo.Bar.Baz <= 0x10 || Foo.Bar.Baz >= 0.25", "Foo == 1 || ( Bar != b'\\x00\\xff' && ! Baz.Q ^= \"x\" )", "Foo == 'unterminated && Bar", "Foo == \"mixed' && Bar",
+]
+
+MUT_ALPHABET = list(" \t\n()!&|<>=^$~.*-_,'\"\\bxu0179aAfFzeMNT")
+MUT_TOKENS = [" ", "  ", "\n", "\t", "(", ")", "!", "&&", "||", "&", "|", "==", "!=", ">=", "<=", ">", "<", "^=", "$=", "~=", "=", ".", ",", "*", "Meta", "Meta.", "None", "True",
+              "False", "0x", "0", "1", "1.5", "01", "'", '"', "b'", "\\", "\\'", "\\x", "\\x41", "\\1", "\\u00e9", "''", "(1,2,3)", "(1, 2, 3, 4)", "Foo", ".Bar", "a-b", "A.B", "'a b'"]
+
+
+def mutate_text(rng, t):
+    n = rng.choice((1, 1, 1, 2, 3))
+    for _ in range(n):
+        r = rng.random()
+        i = rng.randrange(0, len(t) + 1)
+        if r < 0.25 and t:
+            j = min(len(t), i + rng.choice((1, 1, 1, 2, 3)))
+            t = t[:i] + t[j:]
+        elif r < 0.5:
+            t = t[:i] + rng.choice(MUT_TOKENS) + t[i:]
+        elif r < 0.7:
+            t = t[:i] + rng.choice(MUT_ALPHABET) + t[i:]
+        elif r < 0.85 and t:
+            i = min(i, len(t) - 1)
+            t = t[:i] + rng.choice(MUT_ALPHABET) + t[i + 1:]
+        elif len(t) > 2:
+            i = rng.randrange(0, len(t) - 1)
+            j = rng.randrange(i + 1, len(t))
+            k = rng.randrange(j, len(t) + 1)
+            t = t[:i] + t[j:k] + t[i:j] + t[k:]
+    return t
+
+
+def random_token_text(rng):
+    n = rng.randrange(1, 9)
+    return "".join(rng.choice(MUT_TOKENS) for _ in range(n))
+
+
+HALFWAY = ["1.00000000000000011102230246251565404236316680908203125", "9007199254740993.0", "0.5000000000000000555111512312578270211815834045410156250",
+           "4503599627370496.5", "4503599627370497.5", "0.000000000000000000000000000000000000000000000000000000000000001"]
+
+
+def random_number_text(rng):
+    """decimal literals that stress the float rounding of the model (b64_of_dec)"""
+    import struct
+    r = rng.random()
+    if r < 0.3:
+        x = rng.random() * 10 ** rng.randrange(-4, 17)
+        s = repr(x)
+        if "e" in s:
+            s = "%.20f" % x
+    elif r < 0.5:
+        bits = rng.getrandbits(64) & 0x7FFFFFFFFFFFFFFF
+        x = struct.unpack("<d", struct.pack("<Q", bits))[0]
+        if x != x or x == float("inf") or x > 1e40 or (x != 0 and x < 1e-40):
+            x = rng.random()
+        s = "%.*f" % (rng.randrange(1, 60), x)
+    elif r < 0.7:
+        s = "".join(rng.choice("0123456789") for _ in range(rng.randrange(1, 25))) + "." + "".join(rng.choice("0123456789") for _ in range(rng.randrange(1, 25)))
+    elif r < 0.85:
+        base = rng.choice(HALFWAY)
+        s = base[:-1] + rng.choice("0123456789") if rng.random() < 0.5 else base + rng.choice(["", "0", "1", "0000001"])
+    else:
+        s = str(rng.getrandbits(rng.randrange(1, 200)))
+    return "Foo == " + s
+
+
+def syntax_nontrivial(io):
+    return io == "REJECT" or " + " in io or io.startswith(("OK n", "OK a", "OK o"))
+
+
+def correspond_syntax(ctx):
+    res = CorrResult(suite="concrete syntax: Coq model of the PEG grammar + visitor vs arpeggio/compile_filter, and the printer",
+                     evaluations=0, distinct_nontrivial=0,
+                     rule="(1) every generated filter AST (corpus, fixed, exhaustive depth-2 trees, seeded random trees): the harness printer (rng=None) is "
+                          "compared character by character with the extracted FilterSyntax.print whenever FilterSyntax.wf_syntax holds; the canonical "
+                          "text and a randomly re-spaced / re-parenthesised / hex variant are parsed by the extracted FilterSyntax.parse and by the real "
+                          "grammar (ParserPython(message_filter) + MessageFilterVisitor), and compiled by FilterSyntax.compile and compile_filter; "
+                          "(2) mutated texts (character / token insertions, deletions, replacements, transpositions of the printed and hand-written "
+                          "texts), random token strings, random decimal literals (float rounding incl. halfway cases) and a hand-written list of edge "
+                          "cases go through compile (the hand-written ones also through parse).  Compared: accept / reject and the complete tree "
+                          "(selectors, operator, typed literal value with floats as exact fractions, Meta / enum references, Not / And / Or nesting); "
+                          "for printed texts additionally that the tree is the AST that was printed.  Texts outside the modelled fragment (triple "
+                          "quotes, \\N, control characters, return inside a literal, inf) are counted and left out.  non-trivial = distinct texts that "
+                          "are rejected or whose tree has an operator or a connective")
+    rng = ctx.rng
+    uniq, seen_ast = [], set()
+    for f in [c["ast"] for c in load_corpus() if c.get("kind") == "filter"] + [f for _, f, _ in gen_filter_cases(ctx)]:
+        k = json.dumps(f)
+        if k not in seen_ast:
+            seen_ast.add(k)
+            uniq.append(f)
+    lines, meta = [], []
+    dist = {"printer_compared": 0, "printer_wf": 0, "printed_canonical": 0, "printed_variant": 0, "mutated": 0, "token_random": 0, "numbers": 0,
+            "hand_written": 0, "outside_fragment": 0, "unencodable": 0}
+
+    def add(cmd, text, src, want=None):
+        if not in_fragment(text):
+            dist["outside_fragment"] += 1
+            return
+        lines.append(text_line(cmd, text))
+        meta.append((cmd, text, src, want))
+
+    printed = []
+    for f in uniq:
+        try:
+            t0 = print_expr(f, None)
+            q = line(["Q"] + enc_fexp(f))
+            exp = "OK " + line(enc_ast_unresolved(f))
+        except Unencodable:
+            dist["unencodable"] += 1
+            continue
+        lines.append(q)
+        meta.append(("Q", t0, "printer", f))
+        printed.append(t0)
+        add("P", t0, "printed_canonical", exp)
+        add("K", t0, "printed_canonical", exp)
+        t1 = print_expr(f, rng)
+        if t1 != t0:
+            pad = rng.choice(["", " ", "\t", "\n "]) if rng.random() < 0.3 else ""
+            add("P", pad + t1 + pad, "printed_variant", exp)
+            add("K", pad + t1 + pad, "printed_variant", exp)
+    for t in HAND_TEXTS:
+        add("K", t, "hand_written")
+        add("P", t, "hand_written")
+    pool = printed + [t for t in HAND_TEXTS if t]
+    for _ in range(ctx.pick(2500, 40000)):
+        add("K", mutate_text(rng, rng.choice(pool)), "mutated")
+    for _ in range(ctx.pick(400, 6000)):
+        add("K", random_token_text(rng), "token_random")
+    for _ in range(ctx.pick(400, 6000)):
+        add("K", random_number_text(rng), "numbers")
+    model = ctx.run_driver(lines)
+    seen = set()
+    nontriv = 0
+    outcomes = {"accept": 0, "reject": 0}
+    samples = []
+    for (cmd, text, src, want), mo in zip(meta, model):
+        mo = mo.strip()
+        if cmd == "Q":
+            parts = mo.split()
+            wf_flag, codes = parts[0], parts[2:]
+            got = "".join(chr(int(c)) for c in codes)
+            dist["printer_compared"] += 1
+            if wf_flag == "1":
+                dist["printer_wf"] += 1
+                if got != text:
+                    res.disagreements.append({"op": "syntax-print", "ast": want, "impl": text, "model": got})
+            continue
+        io = real_compile(text) if cmd == "K" else real_parse(text)
+        if io is None:
+            dist["outside_fragment"] += 1
+            continue
+        dist[src] += 1
+        if io != mo:
+            res.disagreements.append({"op": "syntax", "cmd": cmd, "text": text, "source": src, "impl": io[:600], "model": mo[:600]})
+        elif want is not None and io != want:
+            res.disagreements.append({"op": "syntax", "cmd": cmd, "text": text, "source": src, "impl": io[:600], "model": mo[:600], "printed_ast": want[:600]})
+        outcomes["accept" if io.startswith("OK") else "reject"] += 1
+        if (cmd, text) not in seen:
+            seen.add((cmd, text))
+            if syntax_nontrivial(io):
+                nontriv += 1
+        if len(samples) < 6 and src in ("mutated", "hand_written") and rng.random() < 0.01:
+            samples.append({"text": text, "source": src, "impl": io[:120]})
+    res.evaluations = len(meta)
+    res.distinct_nontrivial = nontriv
+    res.distribution = dict(dist, outcomes=outcomes)
+    res.samples = samples
+    return res
+
+
+# --------------------------------------------------------------------------
 # logger sequences
 
 LOG_ENTRIES = [
@@ -1593,7 +1900,7 @@ def correspond_roundtrip(ctx):
 
 
 def correspond(ctx):
-    return [correspond_filters(ctx), correspond_logger(ctx), correspond_roundtrip(ctx)]
+    return [correspond_filters(ctx), correspond_syntax(ctx), correspond_logger(ctx), correspond_roundtrip(ctx)]
 
 
 # --------------------------------------------------------------------------
